@@ -848,3 +848,127 @@ def _oracle_index_model(c, o):
 FAMILIES.append(Family('index_model', _gen_index_model, _impl_index_model, _coq_index_model, PREAMBLE, _cmp_index_model, _oracle_index_model,
                        shard=40, nontrivial=lambda c: True, descr=lambda c: {'ix': c['ix']['t'], 'n': len(c['init'])},
                        theorem='C13_index_positions, C13_index_int, C13_index_slice, C13_getitem_setitem, C13_getitem_elements, C13_index_natural'))
+
+
+# ---- added after round-2 seeding (an agent noticed it on the unchanged tree): flags created by broadcasting a scalar, and values derived
+# ---- from another rotation, must be independent storage: an in-place edit of one element / of the derived value touches nothing else ----
+_CONSTRUCT = ['random_true', 'from_quat_true', 'from_rotvec_true', 'from_euler_true', 'from_quat_bcast1', 'init_true', 'identity']
+_DERIVE = ['inv', 'pow1', 'pow-1', 'pow3', 'reflect', 'invert_axes', 'matmul_id', 'reshape', 'concatenate', 'getitem_all']
+_EDIT2 = ['setitem_proper', 'setitem_improper', 'is_improper_flip', 'is_improper_false', 'quaternion_w']
+
+
+def _gen_flag_storage(rng, tier):
+    out = [{'kind': 'element', 'construct': c, 'n': n, 'pos': p, 'seed': 11 + n, 'edit': e}
+           for c in _CONSTRUCT for (n, p) in ((3, 0), (2, 1)) for e in ('setitem_proper', 'is_improper_one')]
+    out += [{'kind': 'derived', 'derive': d, 'single': s, 'improper': imp, 'edit': e, 'seed': 5}
+            for d in _DERIVE for s in (True, False) for imp in (True, False)
+            for e in (('is_improper_flip', 'quaternion_w') if s else ('setitem_proper', 'is_improper_false'))]
+    for _ in range(0 if tier == 'quick' else 200):
+        if rng.random() < 0.5:
+            n = rng.randint(1, 5)
+            out.append({'kind': 'element', 'construct': rng.choice(_CONSTRUCT), 'n': n, 'pos': rng.randrange(n), 'seed': rng.randrange(10 ** 6),
+                        'edit': rng.choice(['setitem_proper', 'is_improper_one'])})
+        else:
+            out.append({'kind': 'derived', 'derive': rng.choice(_DERIVE), 'single': rng.random() < 0.5, 'improper': rng.random() < 0.6,
+                        'edit': rng.choice(_EDIT2), 'seed': rng.randrange(10 ** 6)})
+    return out
+
+
+def _impl_flag_storage(c):
+    import torch
+    from mrpro.data import Rotation
+    g = torch.Generator().manual_seed(c['seed'])
+
+    def quats(n):
+        q = torch.randint(-4, 5, (n, 4), generator=g).to(torch.float64)
+        q[:, 3] += 5
+        return q
+    proper = Rotation(torch.tensor([1.0, 2.0, -1.0, 3.0], dtype=torch.float64), normalize=True)
+    improper = Rotation(torch.tensor([1.0, 2.0, -1.0, 3.0], dtype=torch.float64), normalize=True, inversion=True)
+    if c['kind'] == 'element':
+        n = c['n']
+        k = c['construct']
+        if k == 'random_true':
+            r = Rotation.random(n, random_state=c['seed'], improper=True)
+        elif k == 'from_quat_true':
+            r = Rotation.from_quat(quats(n), inversion=True)
+        elif k == 'from_rotvec_true':
+            r = Rotation.from_rotvec(quats(n)[:, :3] / 4, inversion=True)
+        elif k == 'from_euler_true':
+            r = Rotation.from_euler('zyx', quats(n)[:, :3] / 4, inversion=True)
+        elif k == 'from_quat_bcast1':
+            r = Rotation.from_quat(quats(n), inversion=torch.tensor([True]))
+        elif k == 'init_true':
+            r = Rotation(quats(n), normalize=True, inversion=True, copy=False)
+        else:
+            r = Rotation.identity(n)
+        before = r.as_matrix().clone()
+        p = c['pos']
+        if c['edit'] == 'setitem_proper':
+            r[p] = proper
+            want = proper.as_matrix()
+        else:
+            f = r.is_improper.clone()
+            f[p] = ~f[p]
+            r.is_improper = f
+            want = -before[p]
+        after = r.as_matrix()
+        others = [i for i in range(n) if i != p]
+        return {'dev_others': float((after[others] - before[others]).abs().max()) if others else 0.0,
+                'dev_edited': float((after[p] - want.to(after.dtype)).abs().max())}
+    q = quats(1 if c['single'] else 3)
+    base = Rotation(q[0] if c['single'] else q, normalize=True, inversion=c['improper'] if c['single'] else torch.tensor([c['improper'], False, True]))
+    before = base.as_matrix().clone()
+    d = c['derive']
+    if d == 'inv':
+        s = base.inv()
+    elif d.startswith('pow'):
+        s = base ** int(d[3:])
+    elif d == 'reflect':
+        s = base.reflect()
+    elif d == 'invert_axes':
+        s = base.invert_axes()
+    elif d == 'matmul_id':
+        s = base @ Rotation(torch.tensor([0.0, 0.0, 0.0, 1.0], dtype=torch.float64))
+    elif d == 'reshape':
+        s = base.reshape(1) if c['single'] else base.reshape(3, 1)
+    elif d == 'concatenate':
+        s = Rotation.concatenate([base])
+    else:
+        s = base[...]
+    derived_before = s.as_matrix().clone()
+    e = c['edit']
+    if e in ('setitem_proper', 'setitem_improper'):
+        v = proper if e == 'setitem_proper' else improper
+        if s.single:
+            s[...] = v
+        else:
+            s[(0,) * len(s.shape)] = v
+    elif e == 'is_improper_flip':
+        s.is_improper = ~s.is_improper
+    elif e == 'is_improper_false':
+        s.is_improper = False
+    else:
+        s.quaternion_w = s.quaternion_w * 0 + 0.5
+    changed = float((s.as_matrix() - derived_before).abs().max())
+    return {'dev_base': float((base.as_matrix() - before).abs().max()), 'changed': changed}
+
+
+def _oracle_flag_storage(c, o):
+    if isinstance(o, dict) and 'raises' in o:
+        return None if o['raises'] in ('AttributeError', 'TypeError') and c['kind'] == 'derived' else f'raised {o}'
+    if c['kind'] == 'element':
+        if o['dev_others'] > 0:
+            return (f'editing element {c["pos"]} ({c["edit"]}) of a batch of {c["n"]} rotations built by {c["construct"]} changed the matrices of the '
+                    f'OTHER elements by {o["dev_others"]:.3g}')
+        if o['dev_edited'] > 1e-6:
+            return f'after {c["edit"]} at {c["pos"]} ({c["construct"]}) the edited element differs from the assigned value by {o["dev_edited"]:.3g}'
+        return None
+    if o['dev_base'] > 0:
+        return (f'editing ({c["edit"]}) the rotation returned by {c["derive"]} of a {"single" if c["single"] else "batched"} '
+                f'{"improper" if c["improper"] else "proper"} rotation changed the matrices of the rotation it was derived from by {o["dev_base"]:.3g}')
+    return None
+
+
+FAMILIES.append(Family('flag_storage', _gen_flag_storage, _impl_flag_storage, None, '', None, _oracle_flag_storage,
+                       theorem='C13_history_local (an edit touches the edited value only)'))
